@@ -509,4 +509,25 @@ func runC04(c *Ctx) {
 			r.Sample(steps[:min(len(steps), 12)])
 		}
 	}
+	// hostile short histories (the C05 generator): whenever one happens to be conformant, the model must
+	// agree with the reference tracker and the simulation relation must hold at every prefix; this is how
+	// the conformance predicate itself is kept honest (a clause that is too weak shows up here)
+	sc := SessCfg{Nick: "me", User: "me", AllowFlood: true}
+	conf := 0
+	for i := 0; i < 4000*c.Scale; i++ {
+		steps := []string{"R:srv 001 me :Welcome", "R:me!u@h JOIN #a", "R:srv 353 me = #a :me @bob +Carl"}
+		for k := 1 + c.Rng.Intn(5); k > 0; k-- {
+			steps = append(steps, "R"+c.Rng.hostileLine("me"))
+		}
+		resp := c.L.Call("refcmp", encCfg(sc, false, false), hxList(steps))
+		if resp == "1" {
+			conf++
+		} else if !strings.HasPrefix(resp, "nonconformant") {
+			in := map[string]string{"nick": "me", "check": "c04"}
+			stepsToIn(in, append(steps, "D"))
+			r.Mismatch("c04.hostile_refcmp", hexIn(in), resp, "")
+		}
+		r.Count("h:"+strings.Join(steps[3:], "\n"), resp == "1", "hostile:"+strings.SplitN(resp, " ", 2)[0])
+	}
+	r.Note("hostile histories: %d conformant ones agreed with the reference (relation checked at every prefix)", conf)
 }
